@@ -374,6 +374,8 @@ WORKLOADS = [
     # scripted rotation / flush-one / compaction: several immutable memtables pending at the crash instants
     ["--txns", "40", "--memtable", "32768", "--levels", "3", "--manual"],
     ["--txns", "40", "--memtable", "16384", "--levels", "2", "--manual", "--vlog"],
+    # the B+tree version index next to the tables (creation, flush order, recovery)
+    ["--txns", "25", "--memtable", "32768", "--levels", "2", "--versioning", "--index"],
 ]
 
 
